@@ -596,16 +596,16 @@ Proof.
   - (* CRelAll *)
     inv_some H. apply fi_rel_scan. fa_same (fi_fa _ _ FI).
   - (* CInitBuf : a new frame *)
-    match type of H with (if _ then Some (set_cpc _ ?x) else _) = _ => set (s1 := x) in * end.
+    match type of H with Some (set_cpc _ ?x) = _ => set (s1 := x) in * end.
     assert (FM1 : FMid cfg s1).
     { pose proof (fi_fa _ _ FI) as FA0. unfold FA in FA0. constructor.
       - unfold FA. apply fap_newframe. exact FA0.
       - intros _. split; [apply (link_newframe _ _ _ FA0)|]. cbn. intros i X Y. lia.
       - cbn. intros _ X. discriminate. }
-    destruct (ldm (mt s)); inv_some H; [apply fi_pc; auto|apply fi_finish_op; auto].
+    inv_some H; apply fi_pc; auto.
   - (* CInitSeq *)
     assert (FM : FMid cfg s) by (apply fmid_of_finv; auto; rewrite Epc; cbn; auto; discriminate).
-    inv_some H. apply fi_finish_op. fm_same FM.
+    destruct (ldm (mt s)); inv_some H; apply fi_finish_op; fm_same FM.
 Qed.
 
 (* ------------------------------------------------------------------ *)
